@@ -56,6 +56,17 @@ def tokenize(src):
     return toks
 
 
+def char_value(tok):
+    """code point of a char literal token (with its quotes)"""
+    body = tok[1:-1]
+    if len(body) == 1:
+        return ord(body)
+    esc = {"\\n": 10, "\\r": 13, "\\t": 9, "\\\\": 92, "\\0": 0, "\\'": 39, '\\"': 34}
+    if body in esc:
+        return esc[body]
+    raise Unsupported("char literal " + tok)
+
+
 INT_SUFFIX = re.compile(r"([iu](?:8|16|32|64|128|size))$")
 
 
@@ -245,9 +256,52 @@ class Parser:
         if self.at_ident("mut"):
             self.next()
             mut = True
+        t = self.peek()
+        if t[0] == "char":
+            self.next()
+            return ("plit", ("char", char_value(t[1])))
+        if t[0] == "num":
+            self.next()
+            v, suf = parse_int_token(t[1])
+            return ("plit", ("int", v, suf))
+        if t[0] == "str":
+            self.next()
+            return ("plit", ("str", t[1][1:-1]))
         name = self.ident()
-        if self.at("::") or self.at("(") or self.at("{"):
-            raise Unsupported("enum/struct pattern")
+        segs = [name]
+        while self.at("::"):
+            self.next()
+            segs.append(self.ident())
+        if self.at("("):
+            self.next()
+            ps = []
+            while not self.at(")"):
+                ps.append(self.pattern())
+                if self.at(","):
+                    self.next()
+            self.expect(")")
+            return ("pctor", segs, ps)
+        if self.at("{"):
+            self.next()
+            fields = []
+            rest = False
+            while not self.at("}"):
+                if self.at(".."):
+                    self.next()
+                    rest = True
+                else:
+                    fn_ = self.ident()
+                    if self.at(":"):
+                        self.next()
+                        fields.append((fn_, self.pattern()))
+                    else:
+                        fields.append((fn_, ("pid", fn_, False, False)))
+                if self.at(","):
+                    self.next()
+            self.expect("}")
+            return ("pstruct", segs, fields, rest)
+        if len(segs) > 1 or name in ("None",):
+            return ("pctor", segs, [])
         return ("pid", name, mut, by_ref)
 
     # ---------------------------------------------------------------- expressions
@@ -376,7 +430,11 @@ class Parser:
                     self.next()
                     init = self.expr()
                 if self.at_ident("else"):
-                    raise Unsupported("let-else")
+                    self.next()
+                    eb = self.block()
+                    self.expect(";")
+                    stmts.append(("letelse", pat, ty, init, eb, at))
+                    continue
                 self.expect(";")
                 stmts.append(("let", pat, ty, init, at))
                 continue
@@ -431,7 +489,8 @@ class Parser:
             self.next()
             return ("str", t[1][1:-1])
         if t[0] == "char":
-            raise Unsupported("char literal")
+            self.next()
+            return ("char", char_value(t[1]))
         if t[1] == "(":
             self.next()
             if self.at(")"):
@@ -491,7 +550,19 @@ class Parser:
             if kw == "if":
                 self.next()
                 if self.at_ident("let"):
-                    raise Unsupported("if let")
+                    self.next()
+                    pat = self.pattern()
+                    self.expect("=")
+                    scrut = self.expr(no_struct=True)
+                    th = self.block()
+                    el = None
+                    if self.at_ident("else"):
+                        self.next()
+                        if self.at_ident("if"):
+                            el = self.primary(no_struct)
+                        else:
+                            el = self.block()
+                    return ("iflet", pat, scrut, th, el)
                 c = self.expr(no_struct=True)
                 th = self.block()
                 el = None
@@ -505,7 +576,11 @@ class Parser:
             if kw == "while":
                 self.next()
                 if self.at_ident("let"):
-                    raise Unsupported("while let")
+                    self.next()
+                    pat = self.pattern()
+                    self.expect("=")
+                    scrut = self.expr(no_struct=True)
+                    return ("whilelet", pat, scrut, self.block())
                 c = self.expr(no_struct=True)
                 return ("while", c, self.block())
             if kw == "for":
@@ -514,7 +589,31 @@ class Parser:
                 self.expect("in")
                 it = self.expr(no_struct=True)
                 return ("for", p, it, self.block())
-            if kw in ("loop", "match", "move", "async", "await"):
+            if kw == "match":
+                self.next()
+                scrut = self.expr(no_struct=True)
+                self.expect("{")
+                arms = []
+                while not self.at("}"):
+                    self.attrs()
+                    if self.at("|"):
+                        self.next()
+                    pats = [self.pattern()]
+                    while self.at("|"):
+                        self.next()
+                        pats.append(self.pattern())
+                    guard = None
+                    if self.at_ident("if"):
+                        self.next()
+                        guard = self.expr()
+                    self.expect("=>")
+                    body = self.expr()
+                    if self.at(","):
+                        self.next()
+                    arms.append((pats[0] if len(pats) == 1 else ("por", pats), guard, body))
+                self.expect("}")
+                return ("match", scrut, arms)
+            if kw in ("loop", "move", "async", "await"):
                 raise Unsupported(kw)
             if kw == "return":
                 self.next()
